@@ -367,6 +367,7 @@ class Interp:
         self.degraded: list[str] = []  # calls whose interpretation was abandoned (their result is UNK)
         self.symbolic = False  # attribute loads / calls on opaque values build Sym expressions instead of UNK
         self.summaries: dict = {}  # id(FunctionDef) -> callable(args, kwargs) used instead of interpreting that function
+        self.constructible: set[str] = set()  # qualified class names whose constructor calls are followed (through __init__)
         self.watch_constructors: set[str] = set()  # qualified class names whose construction is recorded, not followed
         self.globals_override: dict = {}  # (module name, identifier) -> value of a module-level object built by the caller
         self.depth = 0
@@ -462,6 +463,8 @@ class Interp:
             return Sym('call', (f,) + tuple(args) + tuple(v for _, v in sorted(kwargs.items())))
         if isinstance(f, ClassRef) and f.cls.qual in self.watch_constructors:
             return Built(f.cls, tuple(args), tuple(sorted(kwargs.items())))
+        if isinstance(f, ClassRef) and f.cls.qual in self.constructible:
+            return self.construct(f.cls, *args, **kwargs)
         if isinstance(f, ClassRef):
             names = self._record_fields(f.cls)
             if names is not None:
@@ -700,6 +703,8 @@ class Interp:
                 return tuple(ClassRef(k) for k in v.cls.mro)
             if name in ('__name__', '__qualname__'):
                 return v.cls.name
+            if name == '__new__' and not any('__new__' in k.own for k in v.cls.mro):
+                return Ref('builtins.object.__new__')
             return self.class_attr(v.cls, name, None)
         if isinstance(v, Ref):
             return Ref(v.path + '.' + name)
@@ -828,6 +833,12 @@ class Interp:
             return Ref(q)
         if ident == 'len':
             return self._len
+        if ident == 'setattr':
+            return self._setattr
+        if ident == 'object':
+            return Ref('builtins.object')
+        if ident == 'vars':
+            return lambda o: dict(o.attrs) if isinstance(o, Obj) else UNK
         if ident in _PURE_BUILTINS:
             return _PURE_BUILTINS[ident]
         if ident == 'len':
@@ -849,6 +860,14 @@ class Interp:
         if ident in ('Ellipsis',):
             return Ellipsis
         return UNK
+
+    def _setattr(self, o: Any, name: Any, value: Any) -> Any:
+        if isinstance(o, Obj) and isinstance(name, str):
+            o.attrs[name] = value
+            return None
+        if o is UNK:
+            return None
+        raise Undecided('setattr on an abstract value')
 
     def _len(self, v: Any) -> Any:
         if isinstance(v, Obj):
@@ -1349,6 +1368,8 @@ class Interp:
                 kwargs.update(d)
             else:
                 kwargs[k.arg] = self.eval(k.value, env)
+        if isinstance(f, Ref) and f.path == 'builtins.object.__new__' and len(args) == 1 and isinstance(args[0], ClassRef):
+            return Obj(args[0].cls, {})
         if isinstance(f, Ref) and f.path.startswith('builtins.'):
             n = f.path[9:]
             if n in _TYPE_NAMES and all(_concrete(a) or isinstance(a, (tuple, list)) for a in args):
